@@ -5,6 +5,7 @@
  *   H id                              new history (new file)                      -> H id
  *   C k xdim ydim ncomp nt il         GRcreate image slot k (name "img<k>")       -> C ok|fail
  *   F k n b..                         GRsetattr(FILL_ATTR, nt, ncomp, bytes)       -> F ok|fail
+ *   A k                               FillValue attribute (GRfindattr/GRgetattr)   -> A ok b..|none
  *   Z k ctype p                       GRsetcompress (1 RLE, 3 SKPHUFF p, 4 DEFLATE p) -> Z ok|fail
  *   K k cx cy ctype p                 GRsetchunk (ctype 0: HDF_CHUNK, else |HDF_COMP) -> K ok|fail
  *   W k sx sy tx ty cx cy n b..       GRwriteimage                                 -> W ok|fail | trace
@@ -213,6 +214,26 @@ int main(int argc, char **argv)
                     rc = GRsetattr(riid[k], FILL_ATTR, nt, nc, b);
                 printf("F %s\n", rc == FAIL ? "fail" : "ok");
                 free(b);
+                break;
+            }
+            case 'A': { /* A k: the FillValue attribute as stored with the image */
+                intn rc = FAIL;
+                int32 idx, ant, acnt;
+                char  an[128];
+                if (fscanf(f, "%ld", &a[0]) != 1) return 3;
+                k = (int)a[0];
+                if (!okslot(k)) { printf("A fail\n"); break; }
+                idx = GRfindattr(riid[k], FILL_ATTR);
+                if (idx == FAIL) { printf("A none\n"); break; }
+                if (GRattrinfo(riid[k], idx, an, &ant, &acnt) != FAIL) {
+                    long n = (long)acnt * DFKNTsize((ant | DFNT_NATIVE) & (~DFNT_LITEND));
+                    unsigned char *b = (unsigned char *)malloc(n > 0 ? (size_t)n : 1);
+                    memset(b, 0xAA, n > 0 ? (size_t)n : 1);
+                    rc = GRgetattr(riid[k], idx, b);
+                    if (rc != FAIL) { printf("A ok"); print_bytes(b, n); printf("\n"); }
+                    free(b);
+                }
+                if (rc == FAIL) printf("A fail\n");
                 break;
             }
             case 'Z': {
